@@ -9,7 +9,13 @@
    real world for every input (keys, container + basic ACL word, eACL tables, signed bearer / session
    tokens, signed request, stored objects) and runs the real token verification -> RequestToInfo ->
    CheckBasicACL -> StickyBitCheck -> CheckEACL pipeline.
-3. TLC (TraceACL) checks verdict = Decide(abstract input) and "allow => Served" for every record."""
+3. TLC (TraceACL) checks verdict = Decide(abstract input) and "allow => Served" for every record.
+4. History class "bearer expires by epoch": every third case carrying a valid bearer token is executed
+   twice on the same node - the request is served (or not), then the node goes through new-epoch events
+   (epoch source moves, the REAL Service.ResetTokenCheckCache + sessions cache reset are called, as
+   cmd/neofs-node does) until the token's exp has passed, and the SAME request with the SAME token bytes
+   is executed again; the second record's abstract input is the first with bearer.valid = FALSE, so the
+   spec demands a refusal (an expired token's table must not be applied)."""
 import json
 import os
 
@@ -82,6 +88,17 @@ def run(ck):
         st = r["desc"]["stage"].split(":")[0]
         stages[st + "/" + r["out"]["v"]] = stages.get(st + "/" + r["out"]["v"], 0) + 1
     ck.setcov("stages", stages)
+    firsts = {r["ridx"]: r for r in recs if r.get("hist") == 1}
+    seconds = [r for r in recs if r.get("hist") == 2]
+    served_first = sum(1 for r in seconds if firsts.get(r["ridx"], {}).get("out", {}).get("v") == "allow")
+    ck.setcov("bearer_expiry_histories", len(seconds))
+    ck.setcov("bearer_expiry_histories_served_at_first", served_first)
+    if not ck.replay and served_first < 30:
+        raise vkit.Infra("vacuous: only %d bearer-expiry histories whose first request was served" % served_first)
+    for r in seconds:
+        if firsts.get(r["ridx"], {}).get("out", {}).get("v") == "allow":
+            ck.sample({"history_first": {k: firsts[r["ridx"]][k] for k in ("out", "desc")}, "history_second": {k: r[k] for k in ("in", "out", "desc")}})
+            break
     ck.setcov("verdict_counts", {v: sum(1 for r in recs if r["out"]["v"] == v) for v in ("allow", "deny", "skip")})
     ck.sample({k: recs[0][k] for k in ("in", "out", "desc")})
     for r in recs:
@@ -100,11 +117,12 @@ def run(ck):
         r = recs[k]
         ck.violation("real ACL pipeline verdict %r differs from ACL!Decide / violates Served for abstract input (record %d, stage %r): %s"
                      % (r["out"]["v"], k, r["desc"].get("stage"), json.dumps(r["in"])),
-                     {"record": {"in": r["in"], "stored": r["stored"], "idx": r["idx"]}, "out": r["out"], "desc": r["desc"],
+                     {"record": {"in": r["in"], "stored": r["stored"], "idx": r["idx"], "hist": r.get("hist", 0), "ridx": r.get("ridx", r["idx"])}, "out": r["out"], "desc": r["desc"],
                       "bad_records_total": len(bad)})
     ck.assumptions += [
         "composition of the checks (token verification, RequestToInfo, CheckBasicACL, StickyBitCheck, CheckEACL, ErrNotMatched = allow) is replicated from pkg/services/object/server.go by the harness",
         "abstraction of a concrete eACL record to (opm, tgt, flt) flags is by construction in the harness (cmd/acl/c28.go buildTargets/buildFilters)",
         "abstract role flags are realised through the fakes: IR key list, FSChain.InContainerInLastTwoEpochs, container owner",
-        "bearer `valid` = signed by its issuer and within lifetime (detailed by C30); cryptography is trusted",
+        "bearer `valid` = signed by its issuer and within lifetime at the CURRENT epoch (detailed by C30); cryptography is trusted",
+        "history class: new-epoch events are realised as the node realises them (epoch source moves, Service.ResetTokenCheckCache and the sessions cache reset are called); the asynchronous window between the tick and the handlers and LRU eviction are not modelled",
     ]
